@@ -257,7 +257,7 @@ impl<const HL: usize, const ID: usize> Hash for LHash<HL, ID> {
 /// (same key bytes, nonce, associated data and ciphertext) and nothing else, so "accepted" means "was produced by
 /// an encryption under this key and nonce" with no toy-tag collisions. The ciphertext body is the toy keystream
 /// XOR (so that REKEY depends on the key), the tag is the log index.
-pub const ILOG: usize = 8;
+pub const ILOG: usize = 12;
 pub const IMAX: usize = 40;
 pub const IAD: usize = 8;
 
@@ -935,6 +935,40 @@ impl snow::resolvers::CryptoResolver for ToyResolver {
                 1 => Some(Box::new(SCipher::<0>)),
                 2 => Some(Box::new(SCipher::<1>)),
                 _ => Some(Box::new(SCipher::<2>)),
+            }
+        }
+    }
+}
+
+
+/// Same for endpoint B ids.
+pub struct ToyResolverB;
+pub static mut TOYB_DH_CALLS: usize = 0;
+pub static mut TOYB_CIPHER_CALLS: usize = 0;
+impl snow::resolvers::CryptoResolver for ToyResolverB {
+    fn resolve_rng(&self) -> Option<Box<dyn Random>> {
+        Some(Box::new(SRng))
+    }
+    fn resolve_dh(&self, _: &snow::params::DHChoice) -> Option<Box<dyn Dh>> {
+        unsafe {
+            TOYB_DH_CALLS += 1;
+            if TOYB_DH_CALLS == 1 {
+                Some(Box::new(SDh::<4, 4, 2>))
+            } else {
+                Some(Box::new(SDh::<4, 4, 3>))
+            }
+        }
+    }
+    fn resolve_hash(&self, _: &snow::params::HashChoice) -> Option<Box<dyn Hash>> {
+        Some(Box::new(SHash::<8, 1>))
+    }
+    fn resolve_cipher(&self, _: &snow::params::CipherChoice) -> Option<Box<dyn Cipher>> {
+        unsafe {
+            TOYB_CIPHER_CALLS += 1;
+            match TOYB_CIPHER_CALLS {
+                1 => Some(Box::new(SCipher::<3>)),
+                2 => Some(Box::new(SCipher::<4>)),
+                _ => Some(Box::new(SCipher::<5>)),
             }
         }
     }
